@@ -7,7 +7,7 @@ use vkani::props::*;
 fn main() {
     let a: Vec<String> = std::env::args().skip(1).collect();
     if a.is_empty() { eprintln!("usage: replay <harness> <ints>"); std::process::exit(4); }
-    let v: Vec<i64> = a[1..].iter().map(|s| s.parse::<i64>().expect("int")).collect();
+    let v: Vec<i64> = a[1..].iter().map(|s| s.parse::<i128>().expect("int") as i64).collect();
     let h = a[0].as_str();
     let r = catch_unwind(AssertUnwindSafe(|| -> Option<Result<(), &'static str>> {
         let g = |i: usize| v[i];
@@ -21,6 +21,9 @@ fn main() {
             "c20_add_days_total" => { if !pre_tot(g(0) as u8, g(2) as u8) { return None; } chk_add_days_total(g(0) as u8, g(1) as i8, g(2) as u8, g(3) != 0) }
             "c20_add_bus_days_total" => { if !pre_tot(g(0) as u8, 0) { return None; } chk_add_bus_days_total(g(0) as u8, g(1) as i8, g(2) != 0) }
             "c20_lag_total" => { if !pre_tot(g(0) as u8, 0) { return None; } chk_lag_total(g(0) as u8, g(1) as i8, g(2) != 0) }
+            "c19_ord_ieee_dual" => chk_ord_dual(g(0) as u64, g(1) as u64),
+            "c19_ord_ieee_dual2" => chk_ord_dual2(g(0) as u64, g(1) as u64),
+            "c19_ord_ieee_number" => { if !pre_ord_number(g(2) as u8, g(3) as u8) { return None; } chk_ord_number(g(0) as u64, g(1) as u64, g(2) as u8, g(3) as u8) }
             _ if h.starts_with("c11_index_left_") => {
                 let n: usize = h.rsplit('_').next().unwrap().parse().unwrap();
                 let xs: Vec<i64> = v[..n].to_vec();
